@@ -71,15 +71,21 @@ def applyMutations (kgc : Nat) (kv : KV) (subj : Bytes) (nss : List NsMuts) : KV
   nss.foldl (fun kv nm =>
     nm.2.foldl (fun kv m => KV.write kv (Keys.dbKey kgc subj nm.1 m.key, m.val)) kv) kv
 
-/-- `KeyedStateStore.decodeKey`: skip key group and schema (3 bytes), read the big-endian subject-key length and skip
-the subject key, read the one-byte namespace length and the namespace; the rest is the entry key.
+/-- how `decodeKey` reads a length field (`binary.Read(r, binary.BigEndian, &x)`; byte order regenerated from the source) -/
+def readLen (b : Bytes) : Nat := if Facts.ksDecodeBigEndian = 1 then Bytes.beNat b else Bytes.leNat b
+
+/-- `KeyedStateStore.decodeKey`: skip key group and schema, read the subject-key length and skip the subject key, read
+the namespace length and the namespace; the rest is the entry key. Skip count and field widths are the regenerated
+facts `ksDecodeSkip` (`compositeKey[3:]`), `ksDecodeLenBits` (`uint32`), `ksDecodeNsBits` (`uint8`).
 (The Go code panics on a short key; the model is total, which only matters for keys no encoder produces.) -/
 def decodeKey (ck : Bytes) : Bytes × Bytes :=
-  let r := ck.drop 3
-  let n := Bytes.beNat (r.take 4)
-  let r := (r.drop 4).drop n
-  let nl := (r.headD 0).toNat
-  let r := r.drop 1
+  let r := ck.drop Facts.ksDecodeSkip
+  let w := Facts.ksDecodeLenBits / 8
+  let n := readLen (r.take w)
+  let r := (r.drop w).drop n
+  let nw := Facts.ksDecodeNsBits / 8
+  let nl := readLen (r.take nw)
+  let r := r.drop nw
   (r.take nl, r.drop nl)
 
 /-- one namespace of the state handed to the handler: `(namespace, [(entry key, value)])` -/
